@@ -291,6 +291,17 @@ pub fn scenarios(thorough: bool) -> Vec<MatchScenario> {
 			out.push(MatchScenario { id_kind, ops, answers: a, extras: vec![], lib_points: false, tx_points: false, rx_split_ping_ms: None, warmup: 0, hold_once: false });
 		}
 	}
+	// (h) two batches in flight whose id ranges nest (a batch of n takes one id from the counter and writes n consecutive
+	//     ids, so the next batch starts inside the previous range): replies in every order
+	for id_kind in [IdKind::Number, IdKind::String] {
+		for ops in [vec![FeOp::Batch(3), FeOp::Batch(2)], vec![FeOp::Batch(2), FeOp::Batch(2), FeOp::Call]] {
+			if !thorough && ops.len() > 2 && matches!(id_kind, IdKind::String) {
+				continue;
+			}
+			let n = ops.len();
+			out.push(MatchScenario { id_kind, ops, answers: vec![Ans::Ok; n], extras: vec![], lib_points: false, tx_points: false, rx_split_ping_ms: None, warmup: 0, hold_once: false });
+		}
+	}
 	// (g) the send task / transport held back once, then running back to back (once-only points)
 	for id_kind in [IdKind::Number, IdKind::String] {
 		for ops in [vec![FeOp::Call, FeOp::Call, FeOp::Call], vec![FeOp::Call, FeOp::Batch(2), FeOp::Subscribe], vec![FeOp::AbandonCall, FeOp::Call, FeOp::Call]] {
@@ -321,7 +332,7 @@ pub fn scenarios(thorough: bool) -> Vec<MatchScenario> {
 		out.push(MatchScenario { id_kind, ops: vec![FeOp::SubscribeDrop, FeOp::LateSubscribe], answers: vec![Ans::Ok, Ans::Ok, Ans::Ok], extras: vec![Extra::ConstSubscriptionId], lib_points: false, tx_points: false, rx_split_ping_ms: None, warmup: 0, hold_once: false });
 		out.push(MatchScenario { id_kind, ops: vec![FeOp::SubscribeDrop, FeOp::LateSubscribe], answers: vec![Ans::Ok, Ans::Omit, Ans::Ok], extras: vec![Extra::ConstSubscriptionId], lib_points: false, tx_points: false, rx_split_ping_ms: None, warmup: 0, hold_once: false });
 	}
-	// (f) a server that reuses a subscription id for a new subscribe while the unsubscribe of the old one is unacknowledged, (e) a batch reply packed into one array behind notifications that overflow an unread subscription
+	// (h) two batches in flight with nested id ranges, (f) a server that reuses a subscription id for a new subscribe while the unsubscribe of the old one is unacknowledged, (e) a batch reply packed into one array behind notifications that overflow an unread subscription
 	for id_kind in [IdKind::Number, IdKind::String] {
 		for n in if thorough { vec![1usize, 2, 3] } else { vec![2] } {
 			out.push(MatchScenario { id_kind, ops: vec![FeOp::SubscribeHold, FeOp::Batch(n)], answers: vec![Ans::Ok, Ans::Ok], extras: vec![Extra::NotifsThenBatchInOneArray], lib_points: false, tx_points: false, rx_split_ping_ms: None, warmup: 0, hold_once: false });
@@ -342,7 +353,7 @@ pub fn scenarios(thorough: bool) -> Vec<MatchScenario> {
 pub fn check(rep: &Reporter) {
 	let thorough = rep.tier.thorough();
 	rep.set_rule(
-		"front-end histories of 2–3 concurrent operations out of {request, subscribe, batch of 2, notification} × answer pattern per wire message {ok, error object, omitted, delivered twice} × extra server messages {none, method + unknown-subscription notifications, response with a never-sent id, array packing two single responses} × id kind {number, string}; every front-end start and every delivery is a scheduling point, so all permutations of answers and all interleavings with late-starting calls are schedules of the DFS; complete tree when ≤ cap executions, else all schedules with ≤ K deviations. plus (c) a transport whose receive() is not cancellation safe (one more await after taking the message) while the read task's inactivity timer ticks every 1–3 virtual ms, and (f) a server that reuses a subscription id for a new subscribe while the unsubscribe of the old one is unacknowledged, (e) a batch reply packed into one array behind notifications overflowing an unread subscription, and (d) batches whose ids start at 8/9 (thorough 7–10, 98, 99) after a warm-up, both id kinds. Oracle: the value each future returns is the payload of the delivered message whose id equals the id found in that call's own wire bytes.",
+		"front-end histories of 2–3 concurrent operations out of {request, subscribe, batch of 2, notification} × answer pattern per wire message {ok, error object, omitted, delivered twice} × extra server messages {none, method + unknown-subscription notifications, response with a never-sent id, array packing two single responses} × id kind {number, string}; every front-end start and every delivery is a scheduling point, so all permutations of answers and all interleavings with late-starting calls are schedules of the DFS; complete tree when ≤ cap executions, else all schedules with ≤ K deviations. plus (c) a transport whose receive() is not cancellation safe (one more await after taking the message) while the read task's inactivity timer ticks every 1–3 virtual ms, and (h) two batches in flight with nested id ranges, (f) a server that reuses a subscription id for a new subscribe while the unsubscribe of the old one is unacknowledged, (e) a batch reply packed into one array behind notifications overflowing an unread subscription, and (d) batches whose ids start at 8/9 (thorough 7–10, 98, 99) after a warm-up, both id kinds. Oracle: the value each future returns is the payload of the delivered message whose id equals the id found in that call's own wire bytes.",
 	);
 	rep.assume("answers are tagged with the index of the wire message they answer, so 'own response' is decidable from bytes alone");
 	let scen = scenarios(thorough);
